@@ -700,6 +700,10 @@ def gen_case(rng, profile=None):
     n = 0 if r < 0.03 else (rng.randint(1, 3) if r < 0.1 else rng.randint(lo, hi))
     rb = rng.random()
     big = 2 if rb < P["p_huge"] else (1 if rb < P["p_huge"] + P["p_big"] else 0)
+    want_same_name = demux == "normal" and rng.random() < P["p_same_name"]
+    if want_same_name and not big and rng.random() < 0.3:
+        # names that share a file matter once the file is larger than the writers' buffers
+        big = 1
     if big:
         # a few large inputs per batch (hundreds of KiB; rarely several MiB with chunks of
         # 0.3-1 MiB), so that size-dependent paths (buffer re-use thresholds, pipe-sized
@@ -739,7 +743,7 @@ def gen_case(rng, profile=None):
                 outs = [g for g in outs if g[0] != flag]
 
     names1 = [a["name"] for a in ad1 + decoys]
-    if demux == "normal" and len(names1) >= 2 and not aux_files and rng.random() < P["p_same_name"]:
+    if want_same_name and len(names1) >= 2 and not aux_files:
         # two barcodes of one sample: two adapters (different sequences) under the same name
         k_, j_ = rng.sample(range(len(names1)), 2)
         old = names1[k_]
